@@ -112,25 +112,46 @@ theorem c17_patch_error (inflate : Bytes → Nat → Bool) (limit : Nat) (fs : F
   rw [h] at hs
   exact hs
 
-/-- Full statement (not proved): `(apply inflate limit fs b).peak ≤ 64·|b| + 2^24`.
-It is **false at the pinned commit + fixes** — recorded finding `patch-block-decompressed-alloc`: a
-compressed block allocates the `decompressed_length` (< 2^31) its header declares and the AddFile
-loop accumulates block data up to the declared `file_size`.  Proved: every request stays below
-`64·|b| + 2^24 + 2^67`, i.e. no request can overflow `usize` / `isize` (no capacity-overflow panic);
-all sites whose size does *not* come from a block header (names, paths, AddData payloads, header
-data) are input-proportional by `SafePD.vecU8Bounded`.  The real heap peak of every generated case is
-measured by the counting allocator in the correspondence. -/
-theorem c17_apply_alloc_partial (inflate : Bytes → Nat → Bool) (limit : Nat) (fs : Fs.FS) (b : Bytes) :
-    (Patch.apply inflate limit fs b).peak ≤ 64 * b.length + 2 ^ 24 + 2 ^ 67 :=
+/-- **Memory in proportion to the patch**: every allocation requested while applying a patch is at
+most `64·|b| + 2^24` bytes — for every byte string, every behaviour of inflate, every start tree and
+file-size limit.  Sites whose size comes from the file: names, paths, AddData payloads and
+uncompressed blocks are read incrementally (`SafePD.vecU8Bounded`: at most twice the input); a
+compressed block requests its padded compressed length (< 32000 + 143) and its declared
+decompressed length, which fix C17-13 refuses above 1 MiB; and the AddFile loop writes every block
+to the target as soon as it is read, so nothing accumulates over the blocks of a file. -/
+theorem c17_apply_alloc (inflate : Bytes → Nat → Bool) (limit : Nat) (fs : Fs.FS) (b : Bytes) :
+    (Patch.apply inflate limit fs b).peak ≤ 64 * b.length + 2 ^ 24 :=
   (Patch.safe_apply inflate limit fs b).peak_le
 
-/-- the finding's witness: a 16-byte block header declaring 2^31 − 1 decompressed bytes makes the
-model request that much for a patch of a few hundred bytes -/
-theorem c17_apply_alloc_witness :
-    ¬ (Patch.readDataBlock (fun _ _ => true)
+/-- before fix C17-13 (`capped := false`): a 16-byte block header declaring 2^31 − 1 decompressed
+bytes makes the block reader request that much for a 128-byte block -/
+theorem c17_apply_alloc_unfixed_witness :
+    ¬ (Patch.readDataBlock false (fun _ _ => true)
         (16 :: 0 :: 0 :: 0 :: 0 :: 0 :: 0 :: 0 :: 5 :: 0 :: 0 :: 0 :: 0xFF :: 0xFF :: 0xFF :: 0x7F :: List.replicate 112 0)
         ⟨16 :: 0 :: 0 :: 0 :: 0 :: 0 :: 0 :: 0 :: 5 :: 0 :: 0 :: 0 :: 0xFF :: 0xFF :: 0xFF :: 0x7F :: List.replicate 112 0, 0⟩).peak
       ≤ 64 * 128 + 2 ^ 24 := by decide +kernel
+
+/-- the same block is refused by the fixed reader before anything is requested -/
+example :
+    (Patch.readDataBlock true (fun _ _ => true)
+        (16 :: 0 :: 0 :: 0 :: 0 :: 0 :: 0 :: 0 :: 5 :: 0 :: 0 :: 0 :: 0xFF :: 0xFF :: 0xFF :: 0x7F :: List.replicate 112 0)
+        ⟨16 :: 0 :: 0 :: 0 :: 0 :: 0 :: 0 :: 0 :: 5 :: 0 :: 0 :: 0 :: 0xFF :: 0xFF :: 0xFF :: 0x7F :: List.replicate 112 0, 0⟩).peak
+      = 0 := by decide +kernel
+
+/-- sixteen bytes: size 128 (= the padded length of an empty compressed part), 4 skipped,
+compressed_length 0, decompressed_length 2^20 -/
+def bombBlock : Bytes := [0x80, 0, 0, 0, 0, 0, 0, 0, 0, 0, 0, 0, 0, 0, 0x10, 0]
+
+/-- the cap alone would not do: with the block reader capped at 1 MiB but the loop of the code
+before C17-13 (every block appended to one `Vec`), ten 16-byte block headers that each declare
+1 MiB — a 164-byte input when inflate accepts them — make the `Vec` grow beyond the budget.
+(With libz-rs a block of 2^20 zero bytes deflates to about 1 KiB, still 1000 : 1.)  Hence the
+loop was changed to write block by block. -/
+theorem c17_apply_accumulate_unfixed_witness :
+    ¬ (Patch.readBlocksAccum true (fun _ _ => true) (2 ^ 40) 165 0
+        ((List.replicate 10 bombBlock).flatten ++ [0, 0, 0, 0])
+        ⟨(List.replicate 10 bombBlock).flatten ++ [0, 0, 0, 0], 0⟩).peak
+      ≤ 64 * 164 + 2 ^ 24 := by decide +kernel
 
 /-! ### execlookup::extract_frontier_url, BootData::from_existing -/
 theorem c17_execlookup_total (file : Option Bytes) : ¬ (Exec.extractFrontierUrl true file).faults :=
